@@ -67,6 +67,8 @@ class Driver:
         schd.INTERVAL_MAIN_LOOP_QUICK = 0
         self.schd = schd
         TR.schd = schd
+        # what the private database holds before this incarnation touches it (a restart loads its pool from it)
+        db_before = self.db_readback() if self.incarnation > 1 else None
         await schd.install()
         await schd.start()
         if self.clock is None:
@@ -80,7 +82,8 @@ class Driver:
         _cm.sleep = lambda *_a: None   # reload waits with real sleeps between its polling rounds
         TR.ds_client = None
         TR.ds_want = bool(self.policy.get("datastore"))
-        TR.emit("boot", restart=bool(schd.is_restart), n=self.incarnation, sync=instrument.sync_proj(schd))
+        TR.emit("boot", restart=bool(schd.is_restart), n=self.incarnation, sync=instrument.sync_proj(schd),
+                db=db_before)
         if schd.is_restart:
             await self._restart_prelude()
         return schd
@@ -522,6 +525,8 @@ async def run_plan(drv: Driver, plan: dict):
     if kill:
         if kill["kind"] == "emit":
             TR.kill_emit = kill["n"]
+        elif kill["kind"] == "event":
+            TR.kill_event = [kill["name"], int(kill["n"])]
         else:
             TR.stmt_count = 0
             TR.kill_stmt = kill["n"]
@@ -636,7 +641,7 @@ async def run_plan(drv: Driver, plan: dict):
                 res.end = "budget"
                 break
     finally:
-        TR.kill_emit = TR.kill_stmt = None
+        TR.kill_emit = TR.kill_stmt = TR.kill_event = None
         if drv.schd is not None and res.end != "auto" and not (res.end or "").startswith("stopped"):
             await teardown(drv)
     res.launches = list(drv.world.launch_log)
